@@ -313,6 +313,17 @@ ROLE_OF = {"Feature: F": ("feature", ": F"), "Rule: R": ("rule", ": R"), "Backgr
 _KEYWORD_KINDS = ("FeatureLine", "RuleLine", "BackgroundLine", "ScenarioLine", "ExamplesLine", "StepLine")
 
 
+def gen_any(rnd, maxlen=30):
+    """gen(), and for every second document its translation into a randomly chosen other dialect."""
+    L = gen(rnd, maxlen)
+    if rnd.random() < 0.5:
+        names = sorted(_supported() - {"en"})
+        T = translate(L, rnd.choice(names), rnd)
+        if T is not None:
+            return T
+    return L
+
+
 def translate(L, d, rnd):
     """The pool-line document L rewritten in dialect d: a language header in front, every English keyword line with a
     randomly chosen LISTED keyword of d of the same role (any of them, not just the first).  The kind of every line under d
